@@ -5,6 +5,8 @@ import DuneVerif.Proofs.C02Top
 import DuneVerif.Proofs.C02FloatLU
 import DuneVerif.Proofs.C02FloatDet
 import DuneVerif.Proofs.C02FloatInv
+import DuneVerif.Proofs.C02Scale
+import DuneVerif.Proofs.C02FloatSing
 import Mathlib.LinearAlgebra.Matrix.NonsingularInverse
 import Mathlib.LinearAlgebra.Matrix.ToLinearEquiv
 import Mathlib.Algebra.Order.Field.Rat
@@ -28,6 +30,13 @@ Part 3: DiagonalMatrix.
 
 Part 4 (floating point): the same models over reals with rounded operations — backward-error bounds of Gaussian
 elimination for solve / invert / determinant on the LU path and for DiagonalMatrix.
+
+Part 5 (round three — no absolute scale): the LU path of solve / invert / determinant treats `c·A`, `d·b` exactly as it
+treats `A`, `b` — the same verdict "singular" (FMatrixError / determinant 0), the same row exchanges and multipliers,
+the results scaled — over exact fields for every `c ≠ 0` and under every rounding that commutes with the scaling
+(binary floating point, `c` a power of two, no overflow / underflow).  This is the clause "for every nonsingular A …
+over floating-point fields" seen from the side of the singularity test: a well-conditioned matrix is not declared
+singular because its entries are small (or large).
 
 "solve and determinant never modify A or b": the model is purely functional (inputs cannot change); for the real
 code this clause is checked by the harness (operands compared before/after every call).
@@ -651,6 +660,65 @@ theorem detDiag_error (hn : ((n + 1 : ℕ) : ℝ) * R.u < 1) (d : Vec (n + 1) (F
     ∃ θ : ℝ, |θ| ≤ gamma R.u (n + 1) ∧ (detDiag d).val = (∏ i, (d.f i).val) * (1 + θ) :=
   detDiag_fl hn d
 
+/-- **FMatrixError under rounding means "singular up to the backward error"** (round three; the rounded analogue of
+`singular_reported`).  If `luDecomposition` with pivoting reports a singular matrix — whatever functor it runs with — then
+for a row permutation `σ`, the failing step `i` and the values `B` of the working matrix at that step there is a
+perturbation `ΔA` with `|ΔA| ≤ γ_n |L̃||W̃|` entry-wise (`L̃ = Lview i B`: unit lower triangular, the multipliers of the
+columns `< i`; `W̃ = Wview i B`: the matrix under reduction) such that `P A + ΔA = L̃ W̃` **is singular**.  So a matrix whose
+distance to the singular matrices exceeds the backward error of the elimination — a well-conditioned matrix, at
+whatever scale — is never rejected.  `habs0`, `hnn`: the pivot magnitude vanishes exactly on zero and is nonnegative. -/
+theorem lu_singular_reported_fl {S : Type} (hn : (n : ℝ) * R.u < 1) (absval : FlR R → Q)
+    (habs0 : ∀ x : FlR R, absval x = 0 ↔ x.val = 0) (hnn : ∀ x : FlR R, 0 ≤ absval x)
+    (F : Func n (FlR R) S) (A : Mat n (FlR R)) (s : S)
+    (hfail : (luDecomp true absval F A s).ok = false) :
+    ∃ (σ : Equiv.Perm (Fin n)) (i : Fin n) (B : Mat n ℝ) (ΔA : Matrix (Fin n) (Fin n) ℝ),
+      (∀ r c, |ΔA r c| ≤ gamma R.u n * ∑ k, |Lview i.1 B r k| * |Wview i.1 B k c|) ∧
+      (Matrix.of fun r c => (A.f (σ r) c).val + ΔA r c) = Lview i.1 B * Wview i.1 B ∧
+      (Matrix.of fun r c => (A.f (σ r) c).val + ΔA r c).det = 0 :=
+  lu_fail_singular_fl hn absval habs0 hnn F A s hfail
+
+/-- the same for the calls: `solve` (pivoting on, `rows() ≥ 4`) throws FMatrixError only for such matrices -/
+theorem solve_singular_reported_fl_ge4 {m : Nat} (hn : ((m + 4 : ℕ) : ℝ) * R.u < 1) (absval : FlR R → Q)
+    (habs0 : ∀ x : FlR R, absval x = 0 ↔ x.val = 0) (hnn : ∀ x : FlR R, 0 ≤ absval x)
+    (A : Mat (m + 4) (FlR R)) (b : Vec (m + 4) (FlR R)) (h : solve true absval A b = .fmatrixError) :
+    ∃ (σ : Equiv.Perm (Fin (m + 4))) (i : Fin (m + 4)) (B : Mat (m + 4) ℝ) (ΔA : Matrix (Fin (m + 4)) (Fin (m + 4)) ℝ),
+      (∀ r c, |ΔA r c| ≤ gamma R.u (m + 4) * ∑ k, |Lview i.1 B r k| * |Wview i.1 B k c|) ∧
+      (Matrix.of fun r c => (A.f (σ r) c).val + ΔA r c).det = 0 := by
+  have hfail : (luDecomp true absval elimFunc A b).ok = false := by
+    have h' : solveLU true absval A b = .fmatrixError := h
+    unfold solveLU at h'
+    by_cases hok : (luDecomp true absval elimFunc A b).ok = true
+    · rw [if_pos hok] at h'; cases h'
+    · simpa using hok
+  obtain ⟨σ, i, B, ΔA, hb, _, hd⟩ := lu_fail_singular_fl hn absval habs0 hnn elimFunc A b hfail
+  exact ⟨σ, i, B, ΔA, hb, hd⟩
+
+/-- … and `invert` (pivoting on, `rows() ≥ 4`) -/
+theorem invert_singular_reported_fl_ge4 {m : Nat} (hn : ((m + 4 : ℕ) : ℝ) * R.u < 1) (absval : FlR R → Q)
+    (habs0 : ∀ x : FlR R, absval x = 0 ↔ x.val = 0) (hnn : ∀ x : FlR R, 0 ≤ absval x)
+    (A : Mat (m + 4) (FlR R)) (h : invert true absval A = .fmatrixError) :
+    ∃ (σ : Equiv.Perm (Fin (m + 4))) (i : Fin (m + 4)) (B : Mat (m + 4) ℝ) (ΔA : Matrix (Fin (m + 4)) (Fin (m + 4)) ℝ),
+      (∀ r c, |ΔA r c| ≤ gamma R.u (m + 4) * ∑ k, |Lview i.1 B r k| * |Wview i.1 B k c|) ∧
+      (Matrix.of fun r c => (A.f (σ r) c).val + ΔA r c).det = 0 := by
+  have hfail : (luDecomp true absval pivotFunc A idPivot).ok = false := by
+    have h' : invertLU true absval A = .fmatrixError := h
+    unfold invertLU at h'
+    by_cases hok : (luDecomp true absval pivotFunc A idPivot).ok = true
+    · rw [if_pos hok] at h'; cases h'
+    · simpa using hok
+  obtain ⟨σ, i, B, ΔA, hb, _, hd⟩ := lu_fail_singular_fl hn absval habs0 hnn pivotFunc A idPivot hfail
+  exact ⟨σ, i, B, ΔA, hb, hd⟩
+
+/-- non-vacuity of the premise: the 2×2 zero matrix is rejected under rounding -/
+example : solveLU true (fun y : FlR exRounding => |y.val|) (Mat.ofFn fun _ _ => (0 : FlR exRounding) : Mat 2 (FlR exRounding))
+    (Vec.ofFn fun _ => (1 : FlR exRounding)) = .fmatrixError := by
+  have h0 : (0 : FlR exRounding).val = 0 := rfl
+  have hok : (luDecomp true (fun y : FlR exRounding => |y.val|) elimFunc
+      (Mat.ofFn fun _ _ => (0 : FlR exRounding) : Mat 2 (FlR exRounding)) (Vec.ofFn fun _ => (1 : FlR exRounding))).ok = false := by
+    simp [luDecomp, forUp, List.finRange, List.ofFn, luStep, pivotPhase, pivotSearch, Fin.foldr, Fin.foldr.loop, h0]
+  unfold solveLU; rw [hok]; rfl
+example : ∀ x : FlR exRounding, (fun y : FlR exRounding => |y.val|) x = 0 ↔ x.val = 0 := fun _ => abs_eq_zero
+
 /-! non-vacuity: a rounding with `u = 2⁻⁵³ > 0` exists and meets the size condition for every `n ≤ 10⁶`;
 `|·|` on the values is an admissible magnitude.  (Whether a given hardware arithmetic *is* such a `Rounding` is the
 assumption named in the header.) -/
@@ -669,4 +737,143 @@ example : ∃ x, solveLU true (fun y : FlR exRounding => |y.val|) exA2 exb2 = .o
   unfold solveLU; rw [if_pos hok]; exact ⟨_, rfl⟩
 
 end Float
+/-! ## Part 5 (round three): the LU path has no absolute scale
+
+`Scale.ScaleSys absval φ ψ χ` (Proofs/C02Scale.lean) lists the identities the loops use about a scaling `φ` of the
+matrix, `ψ` of the right-hand side and `χ` of the solution; `Scale.mapMat / mapVec / mapRes` apply a map entry-wise /
+to the result of a call that may report FMatrixError.  The theorems say: **FMatrixError is reported for the scaled
+operands iff it is reported for the unscaled ones** (both pivoting modes, every `n`), and otherwise the result is the
+scaled result.  They hold for the code as it is (pivot compared with zero exactly, pivot chosen by comparing
+magnitudes within a column); a singularity test against a fixed threshold violates them. -/
+section ScaleInvariance
+open Scale
+
+section GenericScalar
+variable {n : Nat} {K Q : Type} [Add K] [Sub K] [Mul K] [Div K] [Neg K] [OfNat K 0] [OfNat K 1]
+variable [LinearOrder Q] [Zero Q] {absval : K → Q} {φ ψ χ : K → K}
+
+/-- **solve, LU path, any scalar type** -/
+theorem solveLU_scale (H : ScaleSys absval φ ψ χ) (piv : Bool) (A : Mat n K) (b : Vec n K) :
+    solveLU piv absval (mapMat φ A) (mapVec ψ b) = mapRes (mapVec χ) (solveLU piv absval A b) :=
+  Scale.solveLU_scale H piv A b
+
+/-- **invert, LU path, any scalar type** (`ι` = the inverse scaling) -/
+theorem invertLU_scale {ι : K → K} (H : ScaleSys absval φ id ι) (piv : Bool) (A : Mat n K) :
+    invertLU piv absval (mapMat φ A) = mapRes (mapMat ι) (invertLU piv absval A) :=
+  Scale.invertLU_scale H piv A
+
+/-- **determinant, LU path, any scalar type**: the value is scaled `n` times; in particular it is `0` (matrix declared
+singular) for the scaled matrix iff it is for the unscaled one, given `φ x = 0 → x = 0` -/
+theorem detLU_scale (H : ScaleSys absval φ ψ χ) (hleft : ∀ x a, φ x * a = φ (x * a)) (hzero : φ 0 = 0)
+    (piv : Bool) (A : Mat n K) :
+    detLU piv absval (mapMat φ A) = φ^[n] (detLU piv absval A) :=
+  Scale.detLU_scale H hleft hzero piv A
+
+/-- the verdict "singular" of `luDecomposition` itself (any functor whose state is untouched by the scaling) -/
+theorem lu_singular_verdict_scale (H : ScaleSys absval φ ψ χ) (piv : Bool) (A : Mat n K) :
+    (luDecomp piv absval (detFunc : Func n K K) (mapMat φ A) (1 : K)).ok =
+      (luDecomp piv absval (detFunc : Func n K K) A (1 : K)).ok :=
+  (luDecomp_scale H piv (detFunc : Func n K K) (fun s' s => s' = s) (fun s' s i p h => by rw [h])
+    (fun B' B s' s i _ h => by
+      rw [elimLoop_snd_of_elim_id detFunc (fun _ _ _ _ => rfl), elimLoop_snd_of_elim_id detFunc (fun _ _ _ _ => rfl)]
+      exact h)
+    (mapMat φ A) A (1 : K) (1 : K) (MatRel_map φ A) rfl).1
+
+end GenericScalar
+
+section ExactField
+variable {K Q : Type} [Field K] [LinearOrder Q] [Zero Q]
+
+/-- **exact fields, `rows() ≥ 4`**: `solve` of `c·A`, `d·b` (`c ≠ 0`) reports FMatrixError iff `solve` of `A`, `b` does,
+and otherwise returns `(d/c)·x`.  `hlt`: the pivot magnitude orders `c·x`, `c·y` as it orders `x`, `y` (true for
+`|·|` on an ordered field and for `|re| + |im|` with real `c`). -/
+theorem solve_scale_exact_ge4 {absval : K → Q} (habs : AbsLike absval) {c : K} (hc : c ≠ 0) (d : K)
+    (hlt : ∀ x y, absval (c * x) < absval (c * y) ↔ absval x < absval y) (piv : Bool) {m : Nat}
+    (A : Mat (m + 4) K) (b : Vec (m + 4) K) :
+    solve piv absval (mapMat (fun x => c * x) A) (mapVec (fun x => d * x) b) =
+      mapRes (mapVec fun x => d / c * x) (solve piv absval A b) :=
+  solve_scale_ge4 (scaleSys_field hc d habs.zero_iff hlt) piv A b
+
+theorem invert_scale_exact_ge4 {absval : K → Q} (habs : AbsLike absval) {c : K} (hc : c ≠ 0)
+    (hlt : ∀ x y, absval (c * x) < absval (c * y) ↔ absval x < absval y) (piv : Bool) {m : Nat}
+    (A : Mat (m + 4) K) :
+    invert piv absval (mapMat (fun x => c * x) A) = mapRes (mapMat fun x => c⁻¹ * x) (invert piv absval A) :=
+  invert_scale_ge4 (scaleSys_field_inv hc habs.zero_iff hlt) piv A
+
+theorem determinant_scale_exact_ge4 {absval : K → Q} (habs : AbsLike absval) {c : K} (hc : c ≠ 0)
+    (hlt : ∀ x y, absval (c * x) < absval (c * y) ↔ absval x < absval y) (piv : Bool) {m : Nat}
+    (A : Mat (m + 4) K) :
+    determinant piv absval (mapMat (fun x => c * x) A) = c ^ (m + 4) * determinant piv absval A := by
+  rw [determinant_scale_ge4 (scaleSys_field hc 1 habs.zero_iff hlt) (fun x a => by ring) (by simp) piv A,
+    iterate_mul_const]
+
+end ExactField
+
+section RoundedArithmetic
+open Flt
+variable {R : Rounding} {Q : Type} [LinearOrder Q] [Zero Q]
+
+/-- **floating point, `rows() ≥ 4`**: if the rounding commutes with the multiplications by `c ≠ 0`, `d` and `d/c`
+(`fl (c·x) = c·fl x`: a binary format, powers of two, no overflow / underflow), `solve` of `c·A`, `d·b` reports
+FMatrixError iff `solve` of `A`, `b` does, and otherwise returns exactly `(d/c)·x̂` -/
+theorem solve_scale_fl_ge4 {absval : FlR R → Q} {c d : ℝ} (hc : c ≠ 0)
+    (hflc : ∀ x, R.fl (c * x) = c * R.fl x) (hfld : ∀ x, R.fl (d * x) = d * R.fl x)
+    (hfldc : ∀ x, R.fl (d / c * x) = d / c * R.fl x)
+    (h0 : ∀ x, absval (scaleFl c x) = 0 ↔ absval x = 0)
+    (hlt : ∀ x y, absval (scaleFl c x) < absval (scaleFl c y) ↔ absval x < absval y)
+    (piv : Bool) {m : Nat} (A : Mat (m + 4) (FlR R)) (b : Vec (m + 4) (FlR R)) :
+    solve piv absval (mapMat (scaleFl c) A) (mapVec (scaleFl d) b) =
+      mapRes (mapVec (scaleFl (d / c))) (solve piv absval A b) :=
+  solve_scale_ge4 (scaleSys_fl hc hflc hfld hfldc h0 hlt) piv A b
+
+theorem invert_scale_fl_ge4 {absval : FlR R → Q} {c : ℝ} (hc : c ≠ 0)
+    (hflc : ∀ x, R.fl (c * x) = c * R.fl x) (hflci : ∀ x, R.fl (c⁻¹ * x) = c⁻¹ * R.fl x)
+    (h0 : ∀ x, absval (scaleFl c x) = 0 ↔ absval x = 0)
+    (hlt : ∀ x y, absval (scaleFl c x) < absval (scaleFl c y) ↔ absval x < absval y)
+    (piv : Bool) {m : Nat} (A : Mat (m + 4) (FlR R)) :
+    invert piv absval (mapMat (scaleFl c) A) = mapRes (mapMat (scaleFl c⁻¹)) (invert piv absval A) :=
+  invert_scale_ge4 (scaleSys_fl_inv hc hflc hflci h0 hlt) piv A
+
+/-- the computed determinant of `c·A` is exactly `cⁿ` times the computed determinant of `A` (in particular `0`, the
+verdict "singular", in the same cases) -/
+theorem determinant_scale_fl_ge4 {absval : FlR R → Q} {c : ℝ} (hc : c ≠ 0)
+    (hflc : ∀ x, R.fl (c * x) = c * R.fl x)
+    (h0 : ∀ x, absval (scaleFl c x) = 0 ↔ absval x = 0)
+    (hlt : ∀ x y, absval (scaleFl c x) < absval (scaleFl c y) ↔ absval x < absval y)
+    (piv : Bool) {m : Nat} (A : Mat (m + 4) (FlR R)) :
+    (determinant piv absval (mapMat (scaleFl c) A)).val = c ^ (m + 4) * (determinant piv absval A).val := by
+  have h1 : ∀ x, R.fl ((1 : ℝ) * x) = 1 * R.fl x := fun x => by simp
+  have h1c : ∀ x, R.fl ((1 : ℝ) / c * x) = 1 / c * R.fl x := by
+    intro x
+    -- fl (c⁻¹ x) = c⁻¹ fl x follows from fl (c y) = c fl y with y = c⁻¹ x
+    have := hflc (1 / c * x)
+    have e2 : c * (1 / c * x) = x := by field_simp
+    rw [e2] at this
+    rw [this]; field_simp
+  rw [determinant_scale_ge4 (scaleSys_fl hc hflc h1 h1c h0 hlt) (scaleFl_mul_left hflc) (scaleFl_zero c) piv A,
+    iterate_scaleFl]
+
+/-! non-vacuity: the hypotheses are satisfiable — `|·|` is an admissible magnitude for every `c ≠ 0`, a rounding that
+commutes with `c = 2⁻¹⁰⁰⁰`, `d = 2⁻⁹⁰⁰` exists, and on a concrete 4×4 rational matrix that needs a row exchange the
+scaled call (`c = 1/1024`) returns a solution (so both sides of `solve_scale_exact_ge4` are `.ok _`). -/
+example (c : ℝ) (hc : c ≠ 0) (x y : FlR exRounding) :
+    (fun z : FlR exRounding => |z.val|) (scaleFl c x) < (fun z : FlR exRounding => |z.val|) (scaleFl c y) ↔
+      (fun z : FlR exRounding => |z.val|) x < (fun z : FlR exRounding => |z.val|) y := abs_scale_lt hc x y
+example (c : ℝ) (hc : c ≠ 0) (x : FlR exRounding) :
+    (fun z : FlR exRounding => |z.val|) (scaleFl c x) = 0 ↔ (fun z : FlR exRounding => |z.val|) x = 0 :=
+  abs_scale_zero hc x
+example : ∀ x, exRounding.fl ((1 / 2 ^ 1000 : ℝ) * x) = 1 / 2 ^ 1000 * exRounding.fl x := fun _ => rfl
+example : (1 / 2 ^ 1000 : ℝ) ≠ 0 := by positivity
+example (x y : ℚ) : |(1 / 1024 : ℚ) * x| < |(1 / 1024 : ℚ) * y| ↔ |x| < |y| := by
+  rw [abs_mul, abs_mul]; exact mul_lt_mul_iff_right₀ (by norm_num)
+example (b : Vec 4 ℚ) : ∃ x, solve true (fun x : ℚ => |x|) (mapMat (fun x => (1 / 1024 : ℚ) * x) exA)
+    (mapVec (fun x => (1 / 4 : ℚ) * x) b) = .ok x := by
+  rw [solve_scale_exact_ge4 (m := 0) absLike_abs_rat (by norm_num) (1 / 4)
+    (fun x y => by rw [abs_mul, abs_mul]; exact mul_lt_mul_iff_right₀ (by norm_num)) true exA b]
+  obtain ⟨x, hx, _⟩ := solve_spec absLike_abs_rat exA b exA_det
+  exact ⟨_, by rw [hx]; rfl⟩
+
+end RoundedArithmetic
+end ScaleInvariance
+
 end DV.C02
